@@ -475,11 +475,26 @@ fn stack(out: &mut Vec<GSpec>) {
         RuleSpec::helper("hp", 'N', "PUSH(\"a\") ~ \"b\""),
         RuleSpec::helper("hq", 'S', "POP ~ \"b\""),
         RuleSpec::helper("hd", 'A', "DROP ~ \"b\""),
+        RuleSpec::helper("h0", 'N', "DROP"),
     ];
     for h in ["hp", "hq", "hd"] {
         for k in 0..8 {
             quick_exprs.push(format!("{} ~ PEEK_ALL", wrap(k, h)));
         }
+    }
+    // repetitions whose iterations make progress on the stack only (zero width)
+    for e in [
+        "DROP* ~ \"a\"",
+        "DROP+ ~ PEEK_ALL",
+        "h0* ~ \"a\"?",
+        "PUSH(\"a\") ~ PUSH(\"\") ~ h0* ~ \"b\"?",
+        "PUSH(\"a\") ~ PUSH(\"a\") ~ h0+ ~ PEEK_ALL",
+        "(DROP ~ \"a\"?)* ~ \"b\"",
+        "(h0 | \"a\")* ~ PEEK_ALL",
+        "DROP{2,} ~ \"a\"",
+        "(&PEEK ~ DROP)* ~ \"a\"?",
+    ] {
+        quick_exprs.push(e.to_string());
     }
     for (quick, list) in [(true, quick_exprs), (false, thorough_exprs)] {
         let ok: Vec<&String> = list.iter().filter(|e| valid_body('N', e, &helpers)).collect();
@@ -1072,6 +1087,36 @@ fn options(out: &mut Vec<GSpec>) {
             7,
         ),
     ];
+    let mut grammars = grammars;
+    grammars.push((
+        "skipref",
+        vec![
+            RuleSpec::helper("WHITESPACE", 'S', "\" \""),
+            RuleSpec::helper("COMMENT", 'S', "\"#\" ~ \"a\"* ~ \"#\""),
+            RuleSpec::new("n", 'N', "\"a\" ~ COMMENT ~ \"b\""),
+            RuleSpec::new("x", 'X', "\"a\" ~ COMMENT* ~ \"b\""),
+            RuleSpec::new("s", 'S', "\"b\" ~ WHITESPACE ~ COMMENT?"),
+            RuleSpec::new("a", 'A', "\"a\" ~ COMMENT ~ x"),
+            RuleSpec::new("c", 'C', "n | s"),
+        ],
+        "ab #",
+        7,
+    ));
+    grammars.push((
+        "cnt2",
+        vec![
+            RuleSpec::helper("WHITESPACE", 'N', "\" \""),
+            RuleSpec::new("item", 'N', "\"a\""),
+            RuleSpec::new("x3", 'N', "item{3}"),
+            RuleSpec::new("x13", 'N', "item{1,3}"),
+            RuleSpec::new("x02", 'N', "item{,2} ~ \"b\""),
+            RuleSpec::new("x2p", 'N', "item{2,}"),
+            RuleSpec::new("xp", 'N', "item+ ~ \"b\"?"),
+            RuleSpec::new("xa", 'C', "item{2} ~ x13?"),
+        ],
+        "ab ",
+        7,
+    ));
     let names = ["box_only_if_needed", "emit_rule_reference", "emit_tagged_node_reference", "do_not_emit_span", "no_warnings", "pest_optimizer = false"];
     for (gname, rules, alphabet, len) in grammars {
         assert!(valid(&rules));
